@@ -427,10 +427,13 @@ type GffItem struct {
 }
 
 type GffFile struct {
-	Header bool      `json:"header"`
-	Width  int       `json:"width"`
-	Route  int       `json:"route,omitempty"` // see GenRoute
-	Items  []GffItem `json:"items"`
+	Header bool `json:"header"`
+	Width  int  `json:"width"`
+	Route  int  `json:"route,omitempty"` // see GenRoute
+	// WholeScores: the writer's exported Precision option is 0 (scores printed with %.0f) and every score
+	// in the file is a whole number, some of them beyond the 64-bit integers
+	WholeScores bool      `json:"whole_scores,omitempty"`
+	Items       []GffItem `json:"items"`
 }
 
 func genTag(t *rapid.T) string {
@@ -613,6 +616,16 @@ func GenGffFile(t *rapid.T, maxItems int) GffFile {
 		}
 		f.Items = append(f.Items, it)
 	}
+	if rapid.IntRange(0, 5).Draw(t, "whole-scores") == 0 {
+		f.WholeScores = true
+		for i := range f.Items {
+			if f.Items[i].HasScore {
+				v := rapid.OneOf(rapid.SampledFrom([]float64{0, 1, -1, 1 << 53, 1<<53 + 2, 9223372036854775808, -9223372036854775808, 9.5e18, -9.9e18, 9.99e18, 1e19, 1.8446744073709552e19, 1e21, -1e25, 1e300}),
+					rapid.Map(rapid.IntRange(-100000, 100000), func(i int) float64 { return float64(i) })).Draw(t, "whole-score")
+				f.Items[i].Score = math.Float64bits(v)
+			}
+		}
+	}
 	return f
 }
 
@@ -647,6 +660,9 @@ func parseMol(m string) feat.Moltype { return feat.ParseMoltype(m) }
 func (f GffFile) WriteLib() ([]byte, error) {
 	var buf bytes.Buffer
 	w := gff.NewWriter(&buf, f.Width, f.Header)
+	if f.WholeScores {
+		w.Precision = 0
+	}
 	for i, it := range f.Items {
 		before := buf.Len()
 		var n int
@@ -757,6 +773,9 @@ func (f GffFile) Text(eol string, finalEOL bool) []byte {
 			score := "."
 			if it.HasScore {
 				score = strconv.FormatFloat(math.Float64frombits(it.Score), 'g', -1, 64)
+				if f.WholeScores {
+					score = strconv.FormatFloat(math.Float64frombits(it.Score), 'f', 0, 64)
+				}
 			}
 			frame := "."
 			if it.Frame >= 0 {
@@ -873,8 +892,8 @@ func (f GffFile) ReadCompare(data []byte) error {
 			if g.SeqName != it.SeqName || g.RegionStart != it.Start || g.RegionEnd != it.End || g.Start() != it.Start || g.End() != it.End || g.Len() != it.End-it.Start {
 				return fmt.Errorf("region: item %d: got %q [%d,%d) want %q [%d,%d)", i, g.SeqName, g.RegionStart, g.RegionEnd, it.SeqName, it.Start, it.End)
 			}
-			if curType != feat.Undefined && g.Type != curType {
-				return fmt.Errorf("region: item %d: type %v want %v (declared by a preceding ##Type line)", i, g.Type, curType)
+			if g.Type != curType {
+				return fmt.Errorf("region: item %d: type %v want %v (what a preceding ##Type line declared; undefined without one)", i, g.Type, curType)
 			}
 		case "seq":
 			g, ok := got.(*linear.Seq)
